@@ -198,8 +198,20 @@ func runC09(c *core.Ctx) {
 			roots = append(roots, p.Method(kt, "AssignString"), p.Method(kt, "AssignNode"))
 		}
 		ok := false
+		// the union assembler's own reflect.Value field (not the key assembler's): in the reflection binding the state IS the bound Go value
+		ownBoundValue := func(x *ssa.FieldAddr) bool {
+			if !isReflectValueField(x) {
+				return false
+			}
+			pt, isPtr := x.X.Type().Underlying().(*types.Pointer)
+			if !isPtr {
+				return false
+			}
+			nt := namedOfType(pt.Elem())
+			return nt != nil && (nt.Obj() == im.Named.Obj() || types.ConvertibleTo(types.NewPointer(nt), types.NewPointer(im.Named)))
+		}
 		for f := range localClosure(p, roots) {
-			// a construction of ErrNotUnionStructure behind a condition on receiver state (field load or unionMember result)
+			// a construction of ErrNotUnionStructure behind a condition on receiver state (state field, or the bound value)
 			core.Instrs(f, func(in ssa.Instruction) {
 				mi, isMI := in.(*ssa.MakeInterface)
 				if !isMI {
@@ -220,13 +232,25 @@ func runC09(c *core.Ctx) {
 					}
 					for w := range core.BackSlice(ifi.Cond, core.SliceOpts{}) {
 						switch x := w.(type) {
-						case *ssa.Extract:
-							if cl, isC := x.Tuple.(*ssa.Call); isC && cl.Call.StaticCallee() != nil && cl.Call.StaticCallee().Name() == "unionMember" {
-								ok = true
+						case *ssa.Call:
+							// reflection binding: the current member is read off the bound Go value by a helper
+							// (its result is control-, not data-dependent on the value): a static call that is handed
+							// the union assembler's own reflect.Value
+							if x.Call.StaticCallee() != nil && !x.Call.IsInvoke() {
+								for _, a := range x.Call.Args {
+									for aw := range core.BackSlice(a, core.SliceOpts{Local: true}) {
+										if fa, isFA := aw.(*ssa.FieldAddr); isFA && ownBoundValue(fa) {
+											ok = true
+										}
+									}
+								}
 							}
 						case *ssa.FieldAddr:
 							fnm := core.FieldName(x)
 							if isStateField(x) || strings.HasSuffix(fnm, ".tag") || strings.HasSuffix(fnm, ".ca") {
+								ok = true
+							}
+							if ownBoundValue(x) {
 								ok = true
 							}
 						}
@@ -412,15 +436,14 @@ func runC09(c *core.Ctx) {
 	if asmT == nil {
 		c.Undecided("node/bindnode._assembler", "-", "type not found")
 	} else {
-		for _, m := range []string{"AssignBool", "AssignInt", "AssignFloat", "AssignString", "AssignBytes", "assignUInt"} {
-			fn := p.Method(types.NewPointer(asmT), m)
-			if fn == nil || len(fn.Blocks) == 0 {
-				c.Undecided("node/bindnode._assembler."+m, "-", "method not found")
-				continue
+		for _, fn := range assignMethodsOf(p, asmT, false) {
+			m := fn.Name()
+			if m == "AssignNull" || m == "AssignLink" {
+				continue // no scalar kind to check: null is decided by nullability, links by Go-type assignability (outside this rule's domain)
 			}
 			var gate *ssa.Call
-			for _, ci := range core.Calls(fn) {
-				if cal := ci.Common().StaticCallee(); cal != nil && cal.Name() == "compatibleKind" {
+			for _, ci := range core.CallsR(fn) {
+				if isKindCheck(ci) {
 					gate = core.CallValue(ci)
 				}
 			}
@@ -442,7 +465,7 @@ func runC09(c *core.Ctx) {
 				if rn := core.RecvNamed(o); rn != nil && rn.Obj().Pkg() != nil && rn.Obj().Pkg().Path() == "reflect" && strings.HasPrefix(o.Name(), "Set") {
 					mut = true
 				}
-				if o.Name() == "createNonPtrVal" {
+				if isValueMaterialiser(p, ci) {
 					mut = true
 				}
 				if !mut {
